@@ -233,6 +233,9 @@ pub enum Ev {
     Word(Tok),
     /// a word right of `--`
     PosWord(Tok),
+    /// the place of an item an enclosing level has taken (only inside the reference scanner):
+    /// nothing can be read across it, an argument name directly in front of it has no value
+    Gap,
 }
 
 #[derive(Clone, Debug, PartialEq, Eq)]
@@ -420,7 +423,7 @@ fn env_lookup(n: &Names, env: &Env) -> Option<Tok> {
 pub fn parse_level(l: &Level, anc: &[&Level], evs: &[Ev], env: &Env) -> Out {
     let r = parse_level_inner(l, anc, evs, env);
     // documented: "print help if app was called with no parameters" - only then
-    if l.usage_fallback && evs.is_empty() && r == Out::Fail {
+    if l.usage_fallback && evs.iter().all(|e| *e == Ev::Gap) && r == Out::Fail {
         return Out::Usage;
     }
     r
@@ -443,7 +446,57 @@ fn parse_level_inner(l: &Level, anc: &[&Level], evs: &[Ev], env: &Env) -> Out {
                     if let Some(c) = l.find_cmd(&w.0) {
                         let mut anc2 = anc.to_vec();
                         anc2.push(l);
-                        cmd = Some((c, parse_level(&c.level, &anc2, &evs[i + 1..], env)));
+                        // "the items to its right (other than options the enclosing level itself
+                        // declares) are judged by the subcommand's own parser": this level's own
+                        // named items written right of the command name are still this level's
+                        // (its named parsers run before the command and see the whole line)
+                        let mut rest: Vec<Ev> = vec![];
+                        let tail = &evs[i + 1..];
+                        let mut j = 0;
+                        while j < tail.len() {
+                            let own = match &tail[j] {
+                                Ev::Long(n, v) => l.find_named(None, Some(n.as_str())).map(|ix| (ix, v.clone())),
+                                Ev::Short(ch, v) => l.find_named(Some(*ch), None).map(|ix| (ix, v.clone())),
+                                _ => None,
+                            };
+                            // a single-use item takes one occurrence; a further one stays where
+                            // it is written and is the sub-command's to judge
+                            let own = own.filter(|(ix, _)| !(l.named[*ix].kind.single() && !occ[*ix].is_empty()));
+                            match own {
+                                Some((ix, inline)) => {
+                                    let n = &l.named[ix];
+                                    if n.kind.is_arg() {
+                                        if let Some(v) = inline {
+                                            occ[ix].push(v);
+                                            j += 1;
+                                        } else {
+                                            match tail.get(j + 1) {
+                                                Some(Ev::Word(w)) if !n.adjacent => {
+                                                    occ[ix].push(w.clone());
+                                                    j += 2;
+                                                }
+                                                _ => return Out::Fail,
+                                            }
+                                        }
+                                    } else {
+                                        if inline.is_some() {
+                                            return Out::Fail;
+                                        }
+                                        occ[ix].push(Tok::default());
+                                        j += 1;
+                                    }
+                                }
+                                None => {
+                                    rest.push(tail[j].clone());
+                                    j += 1;
+                                    continue;
+                                }
+                            }
+                            if rest.last() != Some(&Ev::Gap) {
+                                rest.push(Ev::Gap);
+                            }
+                        }
+                        cmd = Some((c, parse_level(&c.level, &anc2, &rest, env)));
                         break;
                     }
                 }
@@ -453,6 +506,10 @@ fn parse_level_inner(l: &Level, anc: &[&Level], evs: &[Ev], env: &Env) -> Out {
             }
             Ev::PosWord(w) => {
                 words.push((w.clone(), true));
+                i += 1;
+                continue;
+            }
+            Ev::Gap => {
                 i += 1;
                 continue;
             }
